@@ -12,6 +12,20 @@ def run (cmd : String) (a : Args) : Except String String := do
       let (st, raised) := setEdition acc.1 v
       (st, acc.2 ++ [s!"{st}:{showBool raised}"])) (c, [])
     pure (s!"{final} " ++ String.intercalate "," outs)
+  | "ed.cfgs" =>
+    -- c=<k:v,…> the configuration before; d=<k:v,…> the argument of set_configs (in its order); answer: raised flag and the value of every key afterwards, keys sorted
+    let parse (t : String) : Except String (List (String × Int)) :=
+      if t == "-" then pure [] else (t.splitOn ",").mapM fun kv =>
+        match kv.splitOn ":" with
+        | [k, v] => match v.toInt? with | some n => pure (k, n) | none => throw s!"bad value {kv}"
+        | _ => throw s!"bad pair {kv}"
+    let c ← parse (← getStr a "c")
+    let d ← parse (← getStr a "d")
+    let (c', raised) := setConfigs c d
+    let keys := ((c ++ d).map (·.1)).eraseDups
+    let sorted := keys.toArray.qsort (· < ·) |>.toList
+    let shown := sorted.map fun k => s!"{k}:{match Config.get c' k with | some v => toString v | none => "-"}"
+    pure (s!"raised={showBool raised} " ++ String.intercalate "," shown)
   | "ed.init" => pure (match initEdition (← getNat a "v") with | some v => s!"ok:{v}" | none => "config")
   | _ => throw s!"unknown command {cmd}"
 
